@@ -328,42 +328,46 @@ impl NetflowParser {
     ///
     #[inline]
     pub fn parse_bytes(&mut self, packet: &[u8]) -> Vec<NetflowPacket> {
-        if packet.is_empty() {
-            return vec![];
+        let mut results = vec![];
+        // Start of the not yet parsed part of the buffer. One iteration per packet in the
+        // buffer; a loop rather than recursion so that chaining depth is not limited by the stack.
+        let mut offset = 0;
+
+        while offset < packet.len() {
+            let packet = &packet[offset..];
+            match self.parse_packet_by_version(packet) {
+                Ok(parsed_netflow) => {
+                    results.push(parsed_netflow.result);
+                    offset += packet.len() - parsed_netflow.remaining.len();
+                }
+                Err(e) => {
+                    match e {
+                        NetflowParseError::Incomplete(_) => {
+                            results.push(NetflowPacket::Error(NetflowPacketError {
+                                error: e,
+                                remaining: packet.to_vec(),
+                            }))
+                        }
+                        NetflowParseError::Partial(partial) => {
+                            results.push(NetflowPacket::Error(NetflowPacketError {
+                                error: NetflowParseError::Partial(partial),
+                                remaining: packet.to_vec(),
+                            }))
+                        }
+                        NetflowParseError::UnknownVersion(_) => {
+                            results.push(NetflowPacket::Error(NetflowPacketError {
+                                error: e,
+                                remaining: packet.to_vec(),
+                            }))
+                        }
+                        NetflowParseError::UnallowedVersion(_) => {}
+                    }
+                    break;
+                }
+            }
         }
 
-        match self.parse_packet_by_version(packet) {
-            Ok(parsed_netflow) => {
-                let mut results = vec![parsed_netflow.result];
-                if !parsed_netflow.remaining.is_empty() {
-                    results.extend(self.parse_bytes(&parsed_netflow.remaining));
-                }
-                results
-            }
-            Err(e) => match e {
-                NetflowParseError::Incomplete(_) => {
-                    vec![NetflowPacket::Error(NetflowPacketError {
-                        error: e,
-                        remaining: packet.to_vec(),
-                    })]
-                }
-                NetflowParseError::Partial(partial) => {
-                    vec![NetflowPacket::Error(NetflowPacketError {
-                        error: NetflowParseError::Partial(partial),
-                        remaining: packet.to_vec(),
-                    })]
-                }
-                NetflowParseError::UnknownVersion(_) => {
-                    vec![NetflowPacket::Error(NetflowPacketError {
-                        error: e,
-                        remaining: packet.to_vec(),
-                    })]
-                }
-                NetflowParseError::UnallowedVersion(_) => {
-                    vec![]
-                }
-            },
-        }
+        results
     }
 
     /// Takes a Netflow packet slice and returns a vector of Parsed NetflowCommonFlowSet
